@@ -44,7 +44,7 @@ PROP_VALUES = (('bool', True), ('bool', False), ('int', -1), ('int', 0), ('oct',
                ('ue', 3), ('se', -2), ('uie', 5), ('sie', -1), ('u8', 255), ('i4', -8), ('f16', 0.5), ('h', 'ff'), ('b', '1'), ('o', '0'), ('e4m3mxfp', 1.0),
                ('p4binary', 2.0), ('e2m1mxfp', 6.0), ('mxint', 0.5), ('e8m0mxfp', 4.0), ('bytes', b'a'), ('uint', 1), ('hex', '0'), ('bin', '0'), ('bin', '1'))
 ARRAY_OPS = ('append', 'extend', 'insert', 'pop', 'setitem', 'setslice', 'delitem', 'reverse', 'iadd', 'imul', 'byteswap', 'data_append',
-             'data_invert', 'data_assign', 'dtype_assign', 'fromfile', 'ixor')
+             'data_invert', 'data_assign', 'dtype_assign', 'fromfile', 'ixor', 'bitop_mask', 'bitop_mask')
 FOREIGN_OPS = ('flip', 'append', 'clear', 'setall', 'extend', 'pop')
 
 
@@ -119,7 +119,7 @@ class EAlias(Engine):
     # 'mutated_entity_shared_a_buffer' is greybox guidance that can only fire while an aliasing defect exists
     expected_probes = ('derive_via_cache_hit', 'external_mutation_of_source_buffer',
                        'external_mutation_of_tobitarray_result', 'immutable_member_called', 'generator_stepped_after_mutation',
-                       'mutation_with_self_operand', 'array_mutated')
+                       'mutation_with_self_operand', 'array_mutated', 'array_bitop_with_live_mask')
 
     def plan(self, tier, base_seed):
         return self.seeded_plan(tier, base_seed, quick=(16000, 40), thorough=(1200000, 60))
@@ -609,6 +609,22 @@ class EAlias(Engine):
                 elif aop == 'ixor':
                     y = x
                     y ^= '0b' + '1' * x.itemsize
+                elif aop == 'bitop_mask':
+                    # a live bitstring of the pool as the mask of an element-wise & | ^ (plain, in-place, reflected): the mask
+                    # is an operand, never a target.  An Array of the mask's width stands in when the widths differ.
+                    o = self._bits_ent(ev.get('operand', 0))
+                    if o is None or not 1 <= len(o.obj) <= 256:
+                        return 'skip'
+                    t = x if (x.itemsize == len(o.obj) and len(x) >= 1) else B.Array(f'bin{len(o.obj)}', ['1' * len(o.obj), '0' * len(o.obj), '1' * len(o.obj)])
+                    how = abs(v) % 9 if isinstance(v, int) else 0
+                    sym = ('&', '|', '^')[how % 3]
+                    if how < 3:
+                        t = {'&': t.__iand__, '|': t.__ior__, '^': t.__ixor__}[sym](o.obj)
+                    elif how < 6:
+                        {'&': t.__and__, '|': t.__or__, '^': t.__xor__}[sym](o.obj)
+                    else:
+                        {'&': t.__rand__, '|': t.__ror__, '^': t.__rxor__}[sym](o.obj)
+                    self.probe('array_bitop_with_live_mask')
                 elif aop == 'byteswap':
                     x.byteswap()
                 elif aop == 'data_append':
